@@ -83,7 +83,8 @@ type w4fetchRet struct {
 }
 
 type w4snap struct {
-	step int
+	from int // step at which the call that produced this state began (it took effect somewhere in from..step)
+	step int // step at which the state was read back
 	meta *metadata.ClusterMetadata
 }
 
@@ -114,6 +115,7 @@ type w4 struct {
 	returned map[string][]*w4returned
 	fetched  map[string][]*w4fetchRet // "corr/topic/part"
 	snaps    []w4snap
+	mutating int // harness calls changing the cluster metadata whose new state is not recorded yet
 	booted   *simrt.Future
 	done     *simrt.Future
 	left     int
@@ -156,13 +158,15 @@ func tpKey(topic string, part int32) string { return fmt.Sprintf("%s/%d", topic,
 
 func timeMs(ms int64) time.Duration { return time.Duration(ms) * time.Millisecond }
 
-func (w *w4) snapshot() {
+func (w *w4) snapshot() { w.snapshotFrom(w.sim.Step()) }
+
+func (w *w4) snapshotFrom(from int) {
 	m, err := w.inner.Metadata(context.Background(), nil)
 	if err != nil {
 		w.sim.Fail("HARNESS", "setup", "snapshot: %v", err)
 		return
 	}
-	w.snaps = append(w.snaps, w4snap{step: w.sim.Step(), meta: m})
+	w.snaps = append(w.snaps, w4snap{from: from, step: w.sim.Step(), meta: m})
 }
 
 func (w *w4) setup() {
@@ -355,8 +359,11 @@ func (w *w4) envOp(op simrt.Op) {
 		w.brokers[int(op.A)%nb].up = true
 	case "create-topic":
 		name := fmt.Sprintf("n%d", op.A%4)
+		from := w.sim.Step()
+		w.mutating++
+		defer func() { w.mutating-- }()
 		if _, err := w.inner.CreateTopic(context.Background(), metadata.TopicSpec{Name: name, NumPartitions: int32(1 + op.B%3), ReplicationFactor: 1}); err == nil {
-			w.snapshot()
+			w.snapshotFrom(from)
 			w.sim.Probe("w4.topic-created")
 		}
 	case "delete-topic":
@@ -365,8 +372,11 @@ func (w *w4) envOp(op simrt.Op) {
 			// one of the topics the proxy has known (and cached the id of) since it started
 			name = w.topics[int(op.A)%len(w.topics)]
 		}
+		from := w.sim.Step()
+		w.mutating++
+		defer func() { w.mutating-- }()
 		if err := w.inner.DeleteTopic(context.Background(), name); err == nil {
-			w.snapshot()
+			w.snapshotFrom(from)
 			w.sim.Probe("w4.topic-deleted")
 		}
 	}
